@@ -199,7 +199,16 @@ func (c *chain) checkContent(r db.KeyValueReader, prunedBelow int, wantSDL bool)
 // checkContentOpt: noHashLookups skips the by-hash lookups (the history-prune migration wipes the reverse-lookup
 // buckets at its start and rebuilds them at its end, so they are legitimately absent while it is in flight).
 func (c *chain) checkContentOpt(r db.KeyValueReader, prunedBelow int, wantSDL, noHashLookups bool) string {
+	return c.checkContentSkip(r, prunedBelow, wantSDL, noHashLookups, nil)
+}
+
+// checkContentSkip: the blocks in skip (empty blocks without a combined entry, already reported by the caller under
+// the key of their class, see missingEmpty) are not judged again, so that they cannot hide a later discrepancy.
+func (c *chain) checkContentSkip(r db.KeyValueReader, prunedBelow int, wantSDL, noHashLookups bool, skip map[int]bool) string {
 	for b := prunedBelow; b < len(c.shape); b++ {
+		if skip[b] {
+			continue
+		}
 		bn := uint64(b)
 		txs, err := core.GetTransactionsByBlockNumber(r, bn)
 		if err != nil {
